@@ -390,6 +390,8 @@ void gen_round3(rng &r, bool th)
 }
 
 // ---- round 3b ---------------------------------------------------------------
+// a stateless one-line op as a case of its own (replay granularity = the line)
+static void PL(const std::string &s) { P("reset rc 1"); P(s); }
 void gen_round3b(rng &r, bool th)
 {
     // (a) `lifeviol`: ring<Tracked>(n) under ANY sequence over push / pop (contract or not), push(head_place()),
@@ -405,7 +407,7 @@ void gen_round3b(rng &r, bool th)
             for (auto &p : cur)
                 for (char c : {'U', 'O', 'a', 'e', 'x'}) nxt.push_back(p + c);
             for (auto &p : nxt)
-                if (len == maxlen || p.back() == 'e' || p.back() == 'x') P("lifeviol " + S(n) + " " + p);
+                if (len == maxlen || p.back() == 'e' || p.back() == 'x') PL("lifeviol " + S(n) + " " + p);
             cur = nxt;
         }
     }
@@ -420,14 +422,14 @@ void gen_round3b(rng &r, bool th)
                 sc += y < 25 ? 'U' : y < 45 ? 'O' : y < 55 ? 'a' : y < 67 ? 'e' : y < 80 ? 'x' : y < 84 ? 'c' : y < 88 ? 'z'
                       : y < 92 ? 'y' : y < 96 ? 'g' : 'm';
             }
-            P("lifeviol " + S(n) + " " + sc);
+            PL("lifeviol " + S(n) + " " + sc);
         }
     // the same two events as probes of the recorded findings (lifetime clause of `lifecount`)
-    for (const char *sc : {"e", "ue", "uoe"}) P(std::string("@F:C03-emplace-alias-head-slot lifecount 2 ") + sc);
+    for (const char *sc : {"e", "ue", "uoe"}) PL(std::string("@F:C03-emplace-alias-head-slot lifecount 2 ") + sc);
     // repaired in round 3b (6d59c1e; was shown as a VIOLATION by `lifecount 1 x`): a push whose copy constructor
     // throws left the head slot without an object.  Now part of the strict lifetime stream: every sequence over
     // push / pop (contract or not), aliasing push and throwing push of length 5 [6] on rings 1..2, random scripts
-    for (const char *sc : {"x", "ux", "uxu", "xx", "uxo", "xuo", "X", "uX", "XxX", "uXo", "XuoX"}) for (int n : {1, 2, 3}) if (n > 1 || std::string(sc) != "uxu") P("lifecount " + S(n) + " " + sc);
+    for (const char *sc : {"x", "ux", "uxu", "xx", "uxo", "xuo", "X", "uX", "XxX", "uXo", "XuoX"}) for (int n : {1, 2, 3}) if (n > 1 || std::string(sc) != "uxu") PL("lifecount " + S(n) + " " + sc);
     for (int n = 1; n <= 2; n++)
     {
         int maxlen = th ? 6 : 5;
@@ -442,7 +444,7 @@ void gen_round3b(rng &r, bool th)
                 nxt.push_back({p.first + "a", p.second < n ? p.second + 1 : 0});
                 nxt.push_back({p.first + "x", p.second});
             }
-            if (len == maxlen) for (auto &p : nxt) if (p.first.find('x') != std::string::npos) P("lifecount " + S(n) + " " + p.first);
+            if (len == maxlen) for (auto &p : nxt) if (p.first.find('x') != std::string::npos) PL("lifecount " + S(n) + " " + p.first);
             cur = nxt;
         }
     }
@@ -456,7 +458,7 @@ void gen_round3b(rng &r, bool th)
                 unsigned y = (unsigned)r.below(100);
                 sc += y < 25 ? 'U' : y < 45 ? 'O' : y < 55 ? 'a' : y < 70 ? 'x' : y < 80 ? 'X' : y < 84 ? 'c' : y < 88 ? 'z' : y < 92 ? 'y' : y < 96 ? 'g' : 'm';
             }
-            P("lifecount " + S(n) + " " + sc);
+            PL("lifecount " + S(n) + " " + sc);
         }
     // (b) `arr`: unbounded_array<Tracked>(n) under fill / clear / self-assignment / assignment / resize /
     // begin-end: every token sequence up to length 3 [4] on arrays of 0, 1, 3 elements, random longer ones
@@ -470,7 +472,7 @@ void gen_round3b(rng &r, bool th)
             std::vector<std::string> nxt;
             for (auto &p : cur)
                 for (auto &t : toks) nxt.push_back(p.empty() ? t : p + "," + t);
-            for (auto &p : nxt) P("arr " + S(n) + " " + p);
+            for (auto &p : nxt) PL("arr " + S(n) + " " + p);
             cur = nxt;
         }
     }
@@ -486,7 +488,7 @@ void gen_round3b(rng &r, bool th)
                                 : y < 85 ? "z" + S(r.pick(std::vector<int>{0, 1, n - 1, n, n + 1, 256})) : "b";
                 sc += (k ? "," : "") + t;
             }
-            P("arr " + S(n) + " " + sc);
+            PL("arr " + S(n) + " " + sc);
         }
     // (c) igris::ring<char>::write / read with a size_t request of 2^32 + k (repaired ab63e64: the request was
     // truncated to k): every (head, fill) of rings 1..4 [6] x k in {0, 1, room-1, room, room+1, size}; the source
